@@ -150,16 +150,27 @@ def _close(a, b, scale=1.0):
 
 
 def coord_failures(i):
-    """coherence of the exposed coordinate arrays (evaluated on a deep copy so that the history is not disturbed)"""
-    j = copy.deepcopy(i)
+    """coherence of the exposed coordinate arrays, evaluated on deep copies so that the history is not disturbed.
+    The getters populate each other (reading r also refreshes t), so both read orders are examined."""
+    out = []
+    for order in (('x', 'y', 'r', 't'), ('t', 'y', 'x', 'r')):
+        out += _coord_failures_order(copy.deepcopy(i), order)
+        if out:
+            break
+    return out
+
+
+def _coord_failures_order(j, order):
     out = []
     shp = j.data.shape
     dx = float(j.dx)
+    got = {}
     try:
-        x, y = j.x, j.y
-        r, t = j.r, j.t
+        for nm in order:
+            got[nm] = getattr(j, nm)
     except Exception as ex:
         return [f'reading coordinates raised {type(ex).__name__}: {ex}']
+    x, y, r, t = got['x'], got['y'], got['r'], got['t']
     for nm, a in (('x', x), ('y', y), ('r', r), ('t', t)):
         if a.shape != shp:
             out.append(f'{nm}.shape = {a.shape} but data.shape = {shp}')
@@ -176,7 +187,7 @@ def coord_failures(i):
     dt = np.abs(np.angle(np.exp(1j * (t - tt))))
     on_origin = np.hypot(x, y) < TOL * ext
     if not np.all(dt[~on_origin] <= 1e-9):
-        out.append('t is not arctan2(y, x)')
+        out.append(f't is not arctan2(y, x) (read order {"".join(order)})')
     return out
 
 
@@ -196,6 +207,14 @@ def stats_failures(i):
     sc = max(1.0, rms * rms)
     if abs(rms * rms - (std * std + mean * mean)) > TOL * sc:
         out.append(f'rms^2 = {rms * rms} != std^2 + mean^2 = {std * std + mean * mean}')
+    # "the reported statistics ignore invalid samples": same value on the valid samples alone
+    from prysm import util
+    with warnings.catch_warnings():
+        warnings.simplefilter('ignore')
+        alone = (float(util.pv(v)), float(util.rms(v)), float(util.Sa(v)), float(util.std(v)))
+    for nm, a, b in zip(('pv', 'rms', 'Sa', 'std'), (pv, rms, sa, std), alone):
+        if abs(a - b) > 1e-12 * max(1.0, abs(b)):
+            out.append(f'{nm} depends on the invalid samples: {a} on the map, {b} on its valid samples alone')
     eps = 1e-12 * max(float(np.abs(v).max()), 1e-300)      # rounding of the mean of (nearly) constant data
     if not (sa <= std * (1 + 1e-12) + eps and std <= pv * (1 + 1e-12) + eps):
         out.append(f'Sa <= std <= PV violated: Sa={sa} std={std} PV={pv}')
@@ -594,12 +613,32 @@ def run_history(cfg, ops, verbose=False):
 
 
 def search(ctx, hints):
-    """breadth-first over operation sequences on the real object, shortest failing history first"""
+    """property predicates on the real code: first the histories on which model and implementation disagreed
+    (and their one-step extensions), then breadth-first over operation sequences, shortest failing history first"""
     cfgs = all_configs()
-    pick = [c for c in cfgs if c['pattern'] in ('circular', 'none') and c['shape'] in ([8, 8], [9, 7])]
+    seen = set()
+    cands = []
+    for d in (hints.get('disagreements') or []):
+        c = d.get('case') or {}
+        if 'ops' in c and 'shape' in c:
+            key = (tuple(c['shape']), c['pattern'], c['dx'], c['data_seed'], tuple(c['ops']))
+            if key not in seen:
+                seen.add(key)
+                cands.append(c)
+    cands.sort(key=lambda c: len(c['ops']))
+    for c in cands[:150]:
+        cfg = {k: c[k] for k in ('shape', 'pattern', 'dx', 'data_seed')}
+        for ext in [[]] + [[op] for op in ALPHABET]:
+            ops = list(c['ops']) + ext
+            if len(ops) > 8:
+                continue
+            f = run_history(cfg, ops)
+            if f:
+                return {'item': 'history', 'input': dict(cfg, ops=ops), 'detail': f[0]}
+    pick = [c for c in cfgs if c['shape'] in ([8, 8], [9, 7]) and c['dx'] == 0.37]
     for L in (1, 2, 3):
-        for cfg in pick[:4] if L == 3 else pick:
-            for ops in itertools.product(ALPHABET, repeat=L):
+        for cfg in pick:
+            for ops in itertools.product(ALPHABET if L < 3 else COORD_ALPHABET + ['read_t', 'read_y'], repeat=L):
                 f = run_history(cfg, list(ops))
                 if f:
                     return {'item': 'history', 'input': dict(cfg, ops=list(ops)), 'detail': f[0]}
